@@ -9,12 +9,6 @@ type nat =
 | O
 | S of nat
 
-(** val option_map : ('a1 -> 'a2) -> 'a1 option -> 'a2 option **)
-
-let option_map f = function
-| Some a -> Some (f a)
-| None -> None
-
 (** val fst : ('a1 * 'a2) -> 'a1 **)
 
 let fst = function
@@ -687,12 +681,6 @@ let rec map f = function
 | [] -> []
 | a :: t -> (f a) :: (map f t)
 
-(** val flat_map : ('a1 -> 'a2 list) -> 'a1 list -> 'a2 list **)
-
-let rec flat_map f = function
-| [] -> []
-| x :: t -> app (f x) (flat_map f t)
-
 (** val fold_left : ('a1 -> 'a2 -> 'a1) -> 'a2 list -> 'a1 -> 'a1 **)
 
 let rec fold_left f l a0 =
@@ -711,22 +699,6 @@ let rec fold_right f a0 = function
 let rec existsb f = function
 | [] -> false
 | a :: l0 -> (||) (f a) (existsb f l0)
-
-(** val find : ('a1 -> bool) -> 'a1 list -> 'a1 option **)
-
-let rec find f = function
-| [] -> None
-| x :: tl0 -> if f x then Some x else find f tl0
-
-(** val combine : 'a1 list -> 'a2 list -> ('a1 * 'a2) list **)
-
-let rec combine l l' =
-  match l with
-  | [] -> []
-  | x :: tl0 ->
-    (match l' with
-     | [] -> []
-     | y :: tl' -> (x, y) :: (combine tl0 tl'))
 
 (** val firstn : nat -> 'a1 list -> 'a1 list **)
 
@@ -873,14 +845,6 @@ let rec val_accepts m impl =
              | _ -> false)
   | VAny -> true
 
-(** val vbool : val0 -> bool option **)
-
-let vbool = function
-| VN n0 -> (match n0 with
-            | N0 -> Some false
-            | Npos _ -> Some true)
-| _ -> None
-
 (** val vlistN : val0 list -> n list option **)
 
 let rec vlistN = function
@@ -913,11 +877,6 @@ let rec omap f = function
 
 let ofN n0 =
   VN n0
-
-(** val ofnat : nat -> val0 **)
-
-let ofnat n0 =
-  VN (N.of_nat n0)
 
 (** val ofbool : bool -> val0 **)
 
@@ -2697,583 +2656,6 @@ let rec dedup_by eqb2 = function
    | [] -> x :: []
    | y :: t -> if eqb2 x y then y :: t else x :: (y :: t))
 
-type dir =
-| DLeft
-| DRight
-
-(** val first_kmer : nat -> dna -> dna **)
-
-let first_kmer k s =
-  kmer_at k s O
-
-(** val last_kmer : nat -> dna -> dna **)
-
-let last_kmer k s =
-  kmer_at k s (sub (length s) k)
-
-(** val term_kmer : nat -> dna -> dir -> dna **)
-
-let term_kmer k s = function
-| DLeft -> first_kmer k s
-| DRight -> last_kmer k s
-
-(** val index_where : ('a1 -> bool) -> 'a1 list -> nat option **)
-
-let rec index_where p = function
-| [] -> None
-| x :: r ->
-  if p x then Some O else option_map (fun x0 -> S x0) (index_where p r)
-
-(** val end_index : dna list -> dna -> nat option **)
-
-let end_index ends kmer =
-  index_where (dna_eqb kmer) ends
-
-type link = (nat * dir) * bool
-
-(** val find_link_ends :
-    bool -> dna list -> dna list -> dna -> dir -> link option **)
-
-let find_link_ends stranded lefts rights kmer = function
-| DLeft ->
-  (match end_index rights kmer with
-   | Some i -> Some ((i, DRight), false)
-   | None ->
-     if stranded
-     then None
-     else (match end_index lefts (rc kmer) with
-           | Some i -> Some ((i, DLeft), true)
-           | None -> None))
-| DRight ->
-  (match end_index lefts kmer with
-   | Some i -> Some ((i, DLeft), false)
-   | None ->
-     if stranded
-     then None
-     else (match end_index rights (rc kmer) with
-           | Some i -> Some ((i, DRight), true)
-           | None -> None))
-
-(** val ends_of : nat -> dna list -> dir -> dna list **)
-
-let ends_of k seqs side =
-  map (fun s -> term_kmer k s side) seqs
-
-(** val extend : dna -> n -> dir -> dna **)
-
-let extend x b = function
-| DLeft -> extend_left x b
-| DRight -> extend_right x b
-
-(** val edges_ends :
-    bool -> dna list -> dna list -> nat -> dir -> n list -> link list **)
-
-let edges_ends stranded lefts rights id d exts =
-  let t = nth id (match d with
-                  | DLeft -> lefts
-                  | DRight -> rights) [] in
-  flat_map (fun b ->
-    match find_link_ends stranded lefts rights (extend t b d) d with
-    | Some x -> x :: []
-    | None -> []) exts
-
-type key = n
-
-type bv = bool list
-
-(** val lset : 'a1 list -> nat -> 'a1 -> 'a1 list **)
-
-let rec lset l i x =
-  match l with
-  | [] -> []
-  | y :: r -> (match i with
-               | O -> x :: r
-               | S j -> y :: (lset r j x))
-
-(** val bnew : nat -> bv **)
-
-let bnew size =
-  repeat false size
-
-(** val bget : bv -> nat -> bool **)
-
-let bget v s =
-  nth s v false
-
-(** val bset : bv -> nat -> bool -> bv **)
-
-let bset =
-  lset
-
-(** val popcount0 : bv -> nat **)
-
-let rec popcount0 = function
-| [] -> O
-| b :: r -> add (if b then S O else O) (popcount0 r)
-
-(** val mAX_ITERS : nat **)
-
-let mAX_ITERS =
-  S (S (S (S (S (S (S (S (S (S (S (S (S (S (S (S (S (S (S (S (S (S (S (S (S
-    (S (S (S (S (S (S (S (S (S (S (S (S (S (S (S (S (S (S (S (S (S (S (S (S
-    (S (S (S (S (S (S (S (S (S (S (S (S (S (S (S (S (S (S (S (S (S (S (S (S
-    (S (S (S (S (S (S (S (S (S (S (S (S (S (S (S (S (S (S (S (S (S (S (S (S
-    (S (S (S
-    O)))))))))))))))))))))))))))))))))))))))))))))))))))))))))))))))))))))))))))))))))))))))))))))))))))
-
-(** val fc_sync : (bv * bv) -> nat -> bv * bv **)
-
-let fc_sync st s =
-  let (a, c) = st in
-  if bget c s
-  then (a, c)
-  else if bget a s then (a, (bset c s true)) else ((bset a s true), c)
-
-(** val filter_sync : bv -> bv -> (key * nat) list -> bv * key list **)
-
-let rec filter_sync c a = function
-| [] -> (a, [])
-| p :: r ->
-  let (k, s) = p in
-  if bget c s
-  then let (a', redo) = filter_sync c (bset a s false) r in (a', (k :: redo))
-  else filter_sync c a r
-
-(** val level_slots :
-    (nat -> nat -> key -> nat) -> (nat -> nat) -> nat -> key list -> nat list **)
-
-let level_slots h sz iter0 keys =
-  map (h iter0 (sz (length keys))) keys
-
-(** val level_serial :
-    (nat -> nat -> key -> nat) -> (nat -> nat) -> nat -> key list -> bv * key
-    list **)
-
-let level_serial h sz iter0 keys =
-  let size = sz (length keys) in
-  let slots = level_slots h sz iter0 keys in
-  let (a, c) = fold_left fc_sync slots ((bnew size), (bnew size)) in
-  filter_sync c a (combine keys slots)
-
-(** val mphf_loop :
-    (nat -> nat -> key -> nat) -> (nat -> nat) -> nat -> nat -> key list ->
-    bv list option **)
-
-let rec mphf_loop h sz fuel iter0 redo = match redo with
-| [] -> Some []
-| _ :: _ ->
-  (match fuel with
-   | O -> None
-   | S f ->
-     let (a, redo') = level_serial h sz iter0 redo in
-     option_map (fun x -> a :: x) (mphf_loop h sz f (S iter0) redo'))
-
-(** val mphf_new :
-    (nat -> nat -> key -> nat) -> (nat -> nat) -> key list -> bv list option **)
-
-let mphf_new h sz keys =
-  let (a, redo) = level_serial h sz O keys in
-  option_map (fun x -> a :: x)
-    (mphf_loop h sz (sub mAX_ITERS (S O)) (S O) redo)
-
-(** val try_hash_from :
-    (nat -> nat -> key -> nat) -> nat -> nat -> bv list -> key -> nat option **)
-
-let rec try_hash_from h iter0 pop m k =
-  match m with
-  | [] -> None
-  | b :: r ->
-    let s = h iter0 (length b) k in
-    if bget b s
-    then Some (add pop (popcount0 (firstn s b)))
-    else try_hash_from h (S iter0) (add pop (popcount0 b)) r k
-
-(** val try_hash :
-    (nat -> nat -> key -> nat) -> bv list -> key -> nat option **)
-
-let try_hash h m k =
-  try_hash_from h O O m k
-
-(** val create_map :
-    (nat -> nat -> key -> nat) -> (key * 'a1) list -> bv list -> (key * 'a1)
-    option list **)
-
-let create_map h entries m =
-  let ranked = map (fun kv -> ((try_hash h m (fst kv)), kv)) entries in
-  map (fun i ->
-    option_map snd
-      (find (fun r -> match fst r with
-                      | Some j -> Nat.eqb j i
-                      | None -> false) ranked)) (seq O (length entries))
-
-(** val vdir : val0 -> dir option **)
-
-let vdir = function
-| VN n0 -> (match n0 with
-            | N0 -> Some DLeft
-            | Npos _ -> Some DRight)
-| _ -> None
-
-(** val ofdir : dir -> val0 **)
-
-let ofdir d =
-  VN (match d with
-      | DLeft -> N0
-      | DRight -> Npos XH)
-
-(** val oflink : link option -> val0 **)
-
-let oflink = function
-| Some l ->
-  let (p, f) = l in
-  let (i, d) = p in VL ((ofnat i) :: ((ofdir d) :: ((ofbool f) :: [])))
-| None -> VL []
-
-(** val vquery : val0 -> (dna * dir) option **)
-
-let vquery = function
-| VL l ->
-  (match l with
-   | [] -> None
-   | v0 :: l0 ->
-     (match v0 with
-      | VL k ->
-        (match l0 with
-         | [] -> None
-         | d :: l1 ->
-           (match l1 with
-            | [] ->
-              (match vlistN k with
-               | Some k' ->
-                 (match vdir d with
-                  | Some d' -> Some (k', d')
-                  | None -> None)
-               | None -> None)
-            | _ :: _ -> None))
-      | _ -> None))
-| _ -> None
-
-(** val vequery : val0 -> ((nat * dir) * n list) option **)
-
-let vequery = function
-| VL l ->
-  (match l with
-   | [] -> None
-   | v0 :: l0 ->
-     (match v0 with
-      | VN id ->
-        (match l0 with
-         | [] -> None
-         | d :: l1 ->
-           (match l1 with
-            | [] -> None
-            | v1 :: l2 ->
-              (match v1 with
-               | VL e ->
-                 (match l2 with
-                  | [] ->
-                    (match vdir d with
-                     | Some d' ->
-                       (match vlistN e with
-                        | Some e' -> Some (((N.to_nat id), d'), e')
-                        | None -> None)
-                     | None -> None)
-                  | _ :: _ -> None)
-               | _ -> None)))
-      | _ -> None))
-| _ -> None
-
-(** val setbits_from : nat -> bv -> nat list **)
-
-let rec setbits_from i = function
-| [] -> []
-| x :: r -> if x then i :: (setbits_from (S i) r) else setbits_from (S i) r
-
-(** val assoc_nat : nat -> (nat * nat) list -> nat **)
-
-let rec assoc_nat n0 = function
-| [] -> O
-| p :: r -> let (a, b) = p in if Nat.eqb a n0 then b else assoc_nat n0 r
-
-(** val vpair_nat : val0 -> (nat * nat) option **)
-
-let vpair_nat = function
-| VL l ->
-  (match l with
-   | [] -> None
-   | v0 :: l0 ->
-     (match v0 with
-      | VN a ->
-        (match l0 with
-         | [] -> None
-         | v1 :: l1 ->
-           (match v1 with
-            | VN b ->
-              (match l1 with
-               | [] -> Some ((N.to_nat a), (N.to_nat b))
-               | _ :: _ -> None)
-            | _ -> None))
-      | _ -> None))
-| _ -> None
-
-(** val vnats : val0 -> nat list option **)
-
-let vnats v =
-  match vNs v with
-  | Some l -> Some (map N.to_nat l)
-  | None -> None
-
-(** val index_model : (nat * nat) list -> nat list list -> val0 **)
-
-let index_model lens slots =
-  let h = fun iter0 _ k -> nth iter0 (nth (N.to_nat k) slots []) O in
-  let sz = fun n0 -> assoc_nat n0 lens in
-  let n0 = length slots in
-  let keys = map N.of_nat (seq O n0) in
-  (match mphf_new h sz keys with
-   | Some m ->
-     let table = create_map h (combine keys (seq O n0)) m in
-     VL ((VL (map (fun b -> VL (map ofnat (setbits_from O b))) m)) :: ((VL
-     (map (fun e ->
-       match e with
-       | Some y -> let (_, v) = y in ofnat v
-       | None -> VBot) table)) :: []))
-   | None -> VBot)
-
-(** val d_bbhash : string -> val0 -> val0 option **)
-
-let d_bbhash op v =
-  if (||)
-       ((||)
-         (eqb1 op (String ((Ascii (true, true, false, false, false, true,
-           true, false)), (String ((Ascii (false, false, false, true, false,
-           true, true, false)), (String ((Ascii (true, true, false, true,
-           false, true, true, false)), (String ((Ascii (false, true, true,
-           true, false, true, false, false)), (String ((Ascii (true, true,
-           false, false, true, true, true, false)), (String ((Ascii (true,
-           false, false, false, false, true, true, false)), (String ((Ascii
-           (true, false, true, true, false, true, true, false)), (String
-           ((Ascii (true, false, true, false, false, true, true, false)),
-           (String ((Ascii (true, true, true, true, true, false, true,
-           false)), (String ((Ascii (true, true, true, false, false, true,
-           true, false)), (String ((Ascii (false, true, false, false, true,
-           true, true, false)), (String ((Ascii (true, false, false, false,
-           false, true, true, false)), (String ((Ascii (false, false, false,
-           false, true, true, true, false)), (String ((Ascii (false, false,
-           false, true, false, true, true, false)),
-           EmptyString)))))))))))))))))))))))))))))
-         (eqb1 op (String ((Ascii (true, true, false, false, false, true,
-           true, false)), (String ((Ascii (false, false, false, true, false,
-           true, true, false)), (String ((Ascii (true, true, false, true,
-           false, true, true, false)), (String ((Ascii (false, true, true,
-           true, false, true, false, false)), (String ((Ascii (true, true,
-           false, false, true, true, true, false)), (String ((Ascii (true,
-           false, false, false, false, true, true, false)), (String ((Ascii
-           (true, false, true, true, false, true, true, false)), (String
-           ((Ascii (true, false, true, false, false, true, true, false)),
-           (String ((Ascii (true, true, true, true, true, false, true,
-           false)), (String ((Ascii (true, false, false, false, false, true,
-           true, false)), (String ((Ascii (false, false, false, false, true,
-           true, true, false)), (String ((Ascii (true, false, false, true,
-           false, true, true, false)), EmptyString))))))))))))))))))))))))))
-       (eqb1 op (String ((Ascii (true, true, false, false, false, true, true,
-         false)), (String ((Ascii (false, false, false, true, false, true,
-         true, false)), (String ((Ascii (true, true, false, true, false,
-         true, true, false)), (String ((Ascii (false, true, true, true,
-         false, true, false, false)), (String ((Ascii (true, true, true,
-         true, false, true, true, false)), (String ((Ascii (false, true,
-         false, false, true, true, true, false)), (String ((Ascii (true,
-         false, false, false, false, true, true, false)), (String ((Ascii
-         (true, true, false, false, false, true, true, false)), (String
-         ((Ascii (false, false, true, true, false, true, true, false)),
-         (String ((Ascii (true, false, true, false, false, true, true,
-         false)), EmptyString)))))))))))))))))))))
-  then (match v with
-        | VL l ->
-          (match l with
-           | [] -> None
-           | _ :: l0 ->
-             (match l0 with
-              | [] -> None
-              | a :: l1 ->
-                (match l1 with
-                 | [] -> None
-                 | b :: l2 ->
-                   (match l2 with
-                    | [] -> Some (ofbool (val_eqb a b))
-                    | _ :: _ -> None))))
-        | _ -> None)
-  else if eqb1 op (String ((Ascii (true, true, false, false, false, true,
-            true, false)), (String ((Ascii (false, false, false, true, false,
-            true, true, false)), (String ((Ascii (true, true, false, true,
-            false, true, true, false)), (String ((Ascii (false, true, true,
-            true, false, true, false, false)), (String ((Ascii (false, true,
-            true, false, false, true, true, false)), (String ((Ascii (true,
-            false, false, true, false, true, true, false)), (String ((Ascii
-            (false, true, true, true, false, true, true, false)), (String
-            ((Ascii (false, false, true, false, false, true, true, false)),
-            (String ((Ascii (true, true, true, true, true, false, true,
-            false)), (String ((Ascii (false, false, true, true, false, true,
-            true, false)), (String ((Ascii (true, false, false, true, false,
-            true, true, false)), (String ((Ascii (false, true, true, true,
-            false, true, true, false)), (String ((Ascii (true, true, false,
-            true, false, true, true, false)),
-            EmptyString))))))))))))))))))))))))))
-       then (match v with
-             | VL l ->
-               (match l with
-                | [] -> None
-                | v0 :: l0 ->
-                  (match v0 with
-                   | VN k ->
-                     (match l0 with
-                      | [] -> None
-                      | st :: l1 ->
-                        (match l1 with
-                         | [] -> None
-                         | v1 :: l2 ->
-                           (match v1 with
-                            | VL seqs ->
-                              (match l2 with
-                               | [] -> None
-                               | v2 :: l3 ->
-                                 (match v2 with
-                                  | VL qs ->
-                                    (match l3 with
-                                     | [] ->
-                                       (match vbool st with
-                                        | Some st' ->
-                                          (match omap vNs seqs with
-                                           | Some seqs' ->
-                                             (match omap vquery qs with
-                                              | Some qs' ->
-                                                let lefts =
-                                                  ends_of (N.to_nat k) seqs'
-                                                    DLeft
-                                                in
-                                                let rights =
-                                                  ends_of (N.to_nat k) seqs'
-                                                    DRight
-                                                in
-                                                Some (VL
-                                                (map (fun q ->
-                                                  oflink
-                                                    (find_link_ends st' lefts
-                                                      rights (fst q) 
-                                                      (snd q))) qs'))
-                                              | None -> None)
-                                           | None -> None)
-                                        | None -> None)
-                                     | _ :: _ -> None)
-                                  | _ -> None))
-                            | _ -> None)))
-                   | _ -> None))
-             | _ -> None)
-       else if eqb1 op (String ((Ascii (true, true, false, false, false,
-                 true, true, false)), (String ((Ascii (false, false, false,
-                 true, false, true, true, false)), (String ((Ascii (true,
-                 true, false, true, false, true, true, false)), (String
-                 ((Ascii (false, true, true, true, false, true, false,
-                 false)), (String ((Ascii (true, false, true, false, false,
-                 true, true, false)), (String ((Ascii (false, false, true,
-                 false, false, true, true, false)), (String ((Ascii (true,
-                 true, true, false, false, true, true, false)), (String
-                 ((Ascii (true, false, true, false, false, true, true,
-                 false)), (String ((Ascii (true, true, false, false, true,
-                 true, true, false)), EmptyString))))))))))))))))))
-            then (match v with
-                  | VL l ->
-                    (match l with
-                     | [] -> None
-                     | v0 :: l0 ->
-                       (match v0 with
-                        | VN k ->
-                          (match l0 with
-                           | [] -> None
-                           | st :: l1 ->
-                             (match l1 with
-                              | [] -> None
-                              | v1 :: l2 ->
-                                (match v1 with
-                                 | VL seqs ->
-                                   (match l2 with
-                                    | [] -> None
-                                    | v2 :: l3 ->
-                                      (match v2 with
-                                       | VL qs ->
-                                         (match l3 with
-                                          | [] ->
-                                            (match vbool st with
-                                             | Some st' ->
-                                               (match omap vNs seqs with
-                                                | Some seqs' ->
-                                                  (match omap vequery qs with
-                                                   | Some qs' ->
-                                                     let lefts =
-                                                       ends_of (N.to_nat k)
-                                                         seqs' DLeft
-                                                     in
-                                                     let rights =
-                                                       ends_of (N.to_nat k)
-                                                         seqs' DRight
-                                                     in
-                                                     Some (VL
-                                                     (map (fun q ->
-                                                       let (y, e) = q in
-                                                       let (id, d) = y in
-                                                       VL
-                                                       (map (fun x ->
-                                                         oflink (Some x))
-                                                         (edges_ends st'
-                                                           lefts rights id d
-                                                           e))) qs'))
-                                                   | None -> None)
-                                                | None -> None)
-                                             | None -> None)
-                                          | _ :: _ -> None)
-                                       | _ -> None))
-                                 | _ -> None)))
-                        | _ -> None))
-                  | _ -> None)
-            else if eqb1 op (String ((Ascii (false, true, false, false,
-                      false, true, true, false)), (String ((Ascii (false,
-                      true, false, false, false, true, true, false)), (String
-                      ((Ascii (false, true, true, true, false, true, false,
-                      false)), (String ((Ascii (true, false, false, true,
-                      false, true, true, false)), (String ((Ascii (false,
-                      true, true, true, false, true, true, false)), (String
-                      ((Ascii (false, false, true, false, false, true, true,
-                      false)), (String ((Ascii (true, false, true, false,
-                      false, true, true, false)), (String ((Ascii (false,
-                      false, false, true, true, true, true, false)),
-                      EmptyString))))))))))))))))
-                 then (match v with
-                       | VL l ->
-                         (match l with
-                          | [] -> None
-                          | v0 :: l0 ->
-                            (match v0 with
-                             | VL lens ->
-                               (match l0 with
-                                | [] -> None
-                                | v1 :: l1 ->
-                                  (match v1 with
-                                   | VL slots ->
-                                     (match l1 with
-                                      | [] ->
-                                        (match omap vpair_nat lens with
-                                         | Some lens' ->
-                                           (match omap vnats slots with
-                                            | Some slots' ->
-                                              Some (index_model lens' slots')
-                                            | None -> None)
-                                         | None -> None)
-                                      | _ :: _ -> None)
-                                   | _ -> None))
-                             | _ -> None))
-                       | _ -> None)
-                 else None
-
 (** val cfg_of : n -> n -> kcfg **)
 
 let cfg_of w k =
@@ -4781,18 +4163,4 @@ let dispatch op v =
             (String ((Ascii (false, true, true, true, false, true, false,
             false)), EmptyString))))))))
        then d_spec_kmer op v
-       else if (||)
-                 (eqb1 (substring O (S (S (S O))) op) (String ((Ascii (false,
-                   true, false, false, false, true, true, false)), (String
-                   ((Ascii (false, true, false, false, false, true, true,
-                   false)), (String ((Ascii (false, true, true, true, false,
-                   true, false, false)), EmptyString)))))))
-                 (eqb1 (substring O (S (S (S (S O)))) op) (String ((Ascii
-                   (true, true, false, false, false, true, true, false)),
-                   (String ((Ascii (false, false, false, true, false, true,
-                   true, false)), (String ((Ascii (true, true, false, true,
-                   false, true, true, false)), (String ((Ascii (false, true,
-                   true, true, false, true, false, false)),
-                   EmptyString)))))))))
-            then d_bbhash op v
-            else None
+       else None
